@@ -19,12 +19,13 @@ type ZoneSpec struct {
 	OptOut   bool
 	Salt     string
 	Iter     uint16
-	NoDS     bool  // signed island: parent proves there is no DS
-	WrongDS  bool  // parent publishes a DS matching no key
-	Alg      uint8 // dns.ECDSAP256SHA256 (default) or dns.ED25519
-	Split    bool  // separate KSK and ZSK
-	Servers  int   // number of authorities (default 1)
-	Shared   bool  // served by the parent's first authority as well (instead of own servers)
+	NoDS     bool   // signed island: parent proves there is no DS
+	WrongDS  bool   // parent publishes a DS matching no key
+	Alg      uint8  // dns.ECDSAP256SHA256 (default) or dns.ED25519
+	Split    bool   // separate KSK and ZSK
+	Servers  int    // number of authorities (default 1)
+	Shared   bool   // served by the parent's first authority as well (instead of own servers)
+	NSHost   string // single NS host name outside the zone (glueless delegation); its A record is planted in the zone that holds it
 	Owners   map[string][]uint16
 	Targets  map[string]string
 	TTL      uint32
@@ -112,6 +113,34 @@ func Build(specs []ZoneSpec) *World {
 					z.Owners[host] = map[uint16]bool{}
 				}
 				z.Owners[host][dns.TypeA] = true
+			}
+		}
+		if sp.NSHost != "" && !sp.Shared {
+			// glueless: the zone keeps its own server, but names it through a host in another zone
+			host := strings.ToLower(dns.Fqdn(sp.NSHost))
+			for _, h := range z.NSHosts {
+				delete(z.Owners, h)
+			}
+			z.Servers, z.NSHosts = z.Servers[:1], []string{host}
+			for _, hz := range w.Zones {
+				if vfmodel.IsSubdomain(host, hz.Apex) && (len(hz.Children) == 0 || true) {
+					// deepest zone holding the host
+					best := hz
+					for _, o := range w.Zones {
+						if vfmodel.IsSubdomain(host, o.Apex) && len(o.Apex) > len(best.Apex) {
+							best = o
+						}
+					}
+					if best.Owners[host] == nil {
+						best.Owners[host] = map[uint16]bool{}
+					}
+					best.Owners[host][dns.TypeA] = true
+					if best.AOverride == nil {
+						best.AOverride = map[string]string{}
+					}
+					best.AOverride[host] = z.Servers[0]
+					break
+				}
 			}
 		}
 		for _, ip := range z.Servers {
